@@ -94,4 +94,66 @@ Section AmapProofs.
     apply am_get_None in E.
     apply NoDup_snoc; assumption.
   Qed.
+  Lemma am_mem_existsb : forall (m : list (K * V)) k,
+      am_mem eqb m k = existsb (fun kv => eqb k (fst kv)) m.
+  Proof.
+    unfold am_mem. induction m as [|[k' v] r IH]; intros k; cbn; [reflexivity|].
+    destruct (eqb k k'); [reflexivity|apply IH].
+  Qed.
+
+  Lemma am_update_app : forall (m a b : list (K * V)),
+      am_update eqb m (a ++ b) = am_update eqb (am_update eqb m a) b.
+  Proof. intros m a b. unfold am_update. apply fold_left_app. Qed.
+
+  Lemma am_update_cons : forall (m : list (K * V)) k v e,
+      am_update eqb m ((k, v) :: e) = am_update eqb (am_set eqb m k v) e.
+  Proof. reflexivity. Qed.
+
+  (* lookup after an update: the last item of the update with that key, else the old value *)
+  Lemma am_update_get : forall (e m : list (K * V)) k,
+      am_get eqb (am_update eqb m e) k =
+      match am_last eqb k e with Some v => Some v | None => am_get eqb m k end.
+  Proof.
+    induction e as [|[k' v] r IH]; intros m k; cbn [am_last]; [reflexivity|].
+    rewrite am_update_cons, IH. destruct (am_last eqb k r); [reflexivity|].
+    destruct (eqb k k') eqn:E.
+    - apply eqb_ok in E. subst. apply am_get_set_same.
+    - apply am_get_set_other. apply eqb_false_neq. exact E.
+  Qed.
+
+  (* the old keys keep their places; new keys are appended *)
+  Lemma am_update_keys_prefix : forall (e m : list (K * V)),
+      exists tail, map fst (am_update eqb m e) = map fst m ++ tail.
+  Proof.
+    induction e as [|[k v] r IH]; intros m.
+    - exists []. cbn. rewrite app_nil_r. reflexivity.
+    - rewrite am_update_cons. destruct (IH (am_set eqb m k v)) as [t Ht].
+      rewrite Ht, am_set_keys. destruct (am_mem eqb m k).
+      + exists t. reflexivity.
+      + exists (k :: t). rewrite <- app_assoc. reflexivity.
+  Qed.
+
+  Lemma am_last_In : forall (l : list (K * V)) k v, am_last eqb k l = Some v -> In (k, v) l.
+  Proof.
+    induction l as [|[k' v'] r IH]; intros k v H; cbn in H; [discriminate|].
+    destruct (am_last eqb k r) eqn:E.
+    - inversion H. subst. right. apply IH. exact E.
+    - destruct (eqb k k') eqn:E2; [|discriminate]. apply eqb_ok in E2. inversion H. subst.
+      left. reflexivity.
+  Qed.
+
+  Lemma am_last_None : forall (l : list (K * V)) k, am_last eqb k l = None <-> ~ In k (map fst l).
+  Proof.
+    induction l as [|[k' v] r IH]; intros k; cbn.
+    - split; [intros _ []|reflexivity].
+    - destruct (am_last eqb k r) eqn:E.
+      + split; [discriminate|]. intros H. exfalso.
+        assert (Hn : ~ In k (map fst r)) by (intros H1; apply H; right; exact H1).
+        apply IH in Hn. rewrite Hn in E. discriminate.
+      + destruct (eqb k k') eqn:E2.
+        * apply eqb_ok in E2. subst. split; [discriminate|]. intros H. exfalso. apply H. left. reflexivity.
+        * split; [|reflexivity]. intros _ [H|H].
+          -- subst. rewrite eqb_refl' in E2. discriminate.
+          -- apply (proj1 (IH k) E). exact H.
+  Qed.
 End AmapProofs.
